@@ -604,10 +604,33 @@ def run(chk):
             if not owner_ok:
                 continue
             stores.append((bi, s["line"], show(eb.rvalue(s["rv"])), False))
+        if bid.endswith("::clear_screen"):
+            for bi, t in b.calls():
+                r = t["callee"].get("resolved") or ""
+                if r in SETTERS or r not in f.bodies:
+                    continue
+                for a in t["args"]:
+                    pj = a.get("move") or a.get("copy")
+                    if pj is not None and not pj.get("p") and b.tys(pj["l"]) == "&mut caret::Caret":
+                        stores.append((bi, t["line"], "%s(..)" % r.split("::")[-1], True))
         for bi, line, val, via_call in stores:
             nstores += 1
             key = "%s|store-y|%s" % (b.short(), val[:70])
             if bid in REVIEWED_PRIMS:
+                if bid.endswith("::clear_screen"):
+                    # the reviewed argument ("the cursor is reset to the origin; the buffer is resized afterwards") holds only for a
+                    # constant origin: a row taken from the geometry (first visible line, Caret::home) before the resize is stale after it
+                    const0 = val in ("default()", "Position{0, 0}", "new(0, 0)", "0") or re.fullmatch(r"(<[^>]*>::)?default\(\)", val) is not None
+                    later = b.reachable_from(bi) | {bi}
+                    resized = any(cb in later and any(x in g.reachable([cr]) or cr == x for x in GROWERS[:9])
+                                  for cb, ct in b.calls() for cr in [ct["callee"].get("resolved") or ""] if cr in f.bodies)
+                    okp = const0 or not resized
+                    chk.obligation(okp)
+                    if not okp:
+                        chk.finding("%s|stale-row" % b.short(), detail=key, rule="R-ROW-CLAMP", where="%s:%s" % (b.file, line), fn=b.short(),
+                                    what="the cursor is set to `%s`, which depends on the geometry, and the buffer is resized afterwards: the row is "
+                                         "relative to a scrollback that no longer exists" % val[:80])
+                    continue
                 chk.obligation(True)
                 continue
             # safe forms
